@@ -52,6 +52,51 @@ pub const D_FIRST: u64 = 10;
 pub const D_TIMEOUT: u64 = 3 * DELTA;
 pub const D_STANDSTILL: u64 = 10_000;
 
+/// Offsets (ms after `set_timeouts`) at which the REAL timer task spawned by `Votor::set_timeouts` delivers the
+/// crashed-leader timeout and the per-slot timeouts of a window, measured under tokio's paused clock (hook
+/// `verif_next_timeout`).  The simulation arms its timer events at these measured offsets, so a change of the
+/// schedule in votor.rs reaches the progress oracle.  `Err` = the timer task did not deliver the expected sequence
+/// (crashed-leader timeout first, then one timeout per slot of the window in order).
+pub fn measure_timer_schedule(keys: &Keys) -> Result<(u64, Vec<u64>), String> {
+    let rt = tokio::runtime::Builder::new_current_thread().enable_all().start_paused(true).build().expect("rt");
+    rt.block_on(async {
+        let (_ptx, prx) = mpsc::channel::<PoolEvent>(4);
+        let (_btx, brx) = mpsc::channel::<BlockstoreEvent>(4);
+        let rec = Arc::new(Recorder::default());
+        let t0 = tokio::time::Instant::now();
+        // Votor::new arms the timers of window 0
+        let mut v = Votor::new(ValidatorIndex::new(0), keys.sks[0].clone(), prx, brx, rec);
+        let mut got: Vec<(u64, bool, u64)> = Vec::new();
+        for _ in 0..=SLOTS_PER_WINDOW {
+            match tokio::time::timeout(std::time::Duration::from_secs(3600), v.verif_next_timeout()).await {
+                Ok(Some((slot, crashed))) => got.push((slot.inner(), crashed, t0.elapsed().as_millis() as u64)),
+                _ => break,
+            }
+        }
+        let shape_ok = got.len() as u64 == SLOTS_PER_WINDOW + 1 && got[0].1 && got[0].0 == 0
+            && got[1..].iter().enumerate().all(|(k, g)| !g.1 && g.0 == k as u64);
+        if !shape_ok { return Err(format!("{:?}", got)); }
+        Ok((got[0].2, got[1..].iter().map(|g| g.2).collect()))
+    })
+}
+
+static TIMERS: std::sync::OnceLock<((u64, Vec<u64>), Option<String>)> = std::sync::OnceLock::new();
+
+/// Measured once per process; a malformed timer sequence is kept as a problem text (reported by the generators as a
+/// finding) and the mirrored schedule is used instead.
+pub fn timer_schedule(keys: &Keys) -> &'static ((u64, Vec<u64>), Option<String>) {
+    TIMERS.get_or_init(|| match measure_timer_schedule(keys) {
+        Ok(m) => (m, None),
+        Err(e) => (mirrored_timer_schedule(), Some(e)),
+    })
+}
+
+/// The schedule `Votor::set_timeouts` is documented to follow (mirrored constants).
+pub fn mirrored_timer_schedule() -> (u64, Vec<u64>) {
+    let c = D_TIMEOUT + D_FIRST;
+    (c, (0..SLOTS_PER_WINDOW).map(|k| c + (D_BLOCK - D_FIRST) + k * D_BLOCK).collect())
+}
+
 #[derive(Clone, Copy, PartialEq, Eq, Debug)]
 pub enum Role {
     Correct,
@@ -221,6 +266,8 @@ pub struct RunResult {
 }
 
 pub struct Sim<'a> {
+    /// measured offsets of the real timer task (see `measure_timer_schedule`)
+    timers: (u64, Vec<u64>),
     cfg: Config,
     n: usize,
     keys: &'a mut Keys,
@@ -293,8 +340,9 @@ impl<'a> Sim<'a> {
         // timely from the start: window 0 is the first window that starts after stabilisation
         let horizon0 = if cfg.gst == 0 { Some(cfg.windows_after) } else { None };
         let epoch0 = keys.epoch(&cfg.stakes, 0);
+        let timers = timer_schedule(keys).0.clone();
         Sim {
-            cfg, n, keys, terms, rt, rng, heap: BinaryHeap::new(), seq: 0, now: 0, nodes, blocks: Vec::new(), horizon: horizon0, epoch0, sabotage: std::env::var("AGVERIF_SIM_SABOTAGE").ok(),
+            timers, cfg, n, keys, terms, rt, rng, heap: BinaryHeap::new(), seq: 0, now: 0, nodes, blocks: Vec::new(), horizon: horizon0, epoch0, sabotage: std::env::var("AGVERIF_SIM_SABOTAGE").ok(),
             msg_cache: HashMap::new(), link, group, straggler, lost_any: false, kinds: BTreeMap::new(), findings: Vec::new(),
             hard_end, events_done: 0, byz_plan: BTreeMap::new(),
         }
@@ -670,11 +718,10 @@ impl<'a> Sim<'a> {
     fn arm_timers(&mut self, i: usize, s: u64) {
         if let Some(h) = self.horizon { if s / SLOTS_PER_WINDOW >= h { return; } }
         let t = self.now;
-        self.push(t + D_TIMEOUT + D_FIRST, Ev::Timeout { to: i, slot: s, crashed: true });
-        let mut at = t + D_TIMEOUT + D_FIRST;
+        let (crashed_at, slots_at) = self.timers.clone();
+        self.push(t + crashed_at, Ev::Timeout { to: i, slot: s, crashed: true });
         for k in 0..SLOTS_PER_WINDOW {
-            at += if k == 0 { D_BLOCK - D_FIRST } else { D_BLOCK };
-            self.push(at, Ev::Timeout { to: i, slot: s + k, crashed: false });
+            self.push(t + slots_at[k as usize], Ev::Timeout { to: i, slot: s + k, crashed: false });
         }
     }
 
